@@ -5,4 +5,21 @@ git -C /repo apply $S/patch.diff || exit 2
 cd /verif
 ./check $2 --tier ${3:-quick} > $S/check_$2.log 2>&1; rc=$?
 git -C /repo checkout -- .
+# what was reported: the key of each replay (failing input, broken theorem or correspondence), first few only
+/venv/bin/python - $S/check_$2.log >> $S/check_$2.log <<'PY'
+import json, re, sys
+seen = []
+for m in re.finditer(r"VIOLATION property=\S+ replay=(\S+)(.*)", open(sys.argv[1]).read()):
+    try:
+        r = json.load(open(m.group(1)))
+    except Exception:
+        continue
+    f = r.get("failure") or {}
+    key = (f.get("key") if isinstance(f, dict) else str(f)) or ""
+    line = f"REPORTED kind={r.get('kind')} key={key!r} broken={r.get('broken')}{' no-failing-input-found' if 'no-failing-input-found' in m.group(2) else ''}"
+    if line not in seen:
+        seen.append(line)
+for l in seen[:4]:
+    print(l[:600])
+PY
 echo "seed $1 check $2: rc=$rc"; grep -E "VIOLATION|KNOWN|TOOL|TIMEOUT" $S/check_$2.log | head -5
